@@ -593,7 +593,7 @@ def law_array(cal, k, q):
         if a == 'nan':
             if not math.isnan(b):
                 return f'{o}: {f!r} Hz is outside the calibrated range (scalar form NaN) but the array form gives {b!r}'
-        elif not (abs(b - a) <= (DB_TOL if o != 'sfv' else 1e-10 * abs(a))):
+        elif not (abs(b - a) <= (DB_TOL if o != 'sfv' else 1e-12 * abs(a))):   # measured: 1 ulp (2.2e-16), 3000 tables x 3 classes
             return f'{o}: at {f!r} Hz the array form ({q.get("ar") or "ndarray"}) gives {b!r}, the scalar form {a!r}'
     return None
 
